@@ -5,8 +5,12 @@ CONSTANTS
     MaxClock = 3
     Design = "random"
     Vias = {"gen"}
+    Stations = {}
+    Encs = {}
+    Shared = {}
     Mode = "mc"
     Depth = 0
 VIEW View
-INVARIANTS NoOverwrite
+INVARIANTS NoOverwrite UploadsIsolated
+PROPERTIES ObservationsGood
 CHECK_DEADLOCK FALSE
